@@ -2,6 +2,7 @@ import Gbo.Props.C01
 import Gbo.Proofs.FillRoles
 import Gbo.Proofs.FieldsOp
 import Gbo.Proofs.StripSweep
+import Gbo.Proofs.StripLoop
 /-
   C05 — the four operations are mutually consistent.
 -/
@@ -115,5 +116,31 @@ theorem C05_computeFields_result_differs :
 theorem C05_divideSegment_op_blind (ar : Arith) (cfg : Cfg) (st : SwSt) (seL : Nat) (p : Pt) :
     divideSegment ar cfg (sSw st) seL p = exMap sSw (divideSegment ar cfg st seL p) :=
   sA_divideSegment ar cfg st seL p
+
+/-- … and so is the whole of `possible_intersection`, overlap branch and coincidence marking included: same
+    return code, same failure, same queue, same arena up to the two forgotten fields. -/
+theorem C05_possibleIntersection_op_blind (ar : Arith) (cfg : Cfg) (st : SwSt) (se1 se2 : Nat) :
+    possibleIntersection ar cfg (sSw st) se1 se2 = exMap sRes (possibleIntersection ar cfg st se1 se2) :=
+  sA_possibleIntersection ar cfg st se1 se2
+
+/-- **C05, the whole sweep: union and xor build the same subdivision.**  For every queue `fill_queue` can
+    hand over (indeed every queue), every pair of boxes, every arithmetic and every budget, `subdivide` under
+    `Union` and under `Xor` fail in the same way or return the same `sorted_events`, the same number of
+    popped events and bumps, the same number of segments left in the sweep line, and arenas that agree in
+    every field except `result_transition` and `prev_in_result` — same points, same links, same division
+    points, same in/out flags, same edge types.  The two results can therefore differ only through the
+    selection tables (`C05_tables`, `C01_tables_*`), which is what the identities of C05 are about.
+    (Intersection and difference leave the loop early; for them the statement would be a prefix statement
+    and is not proved.) -/
+theorem C05_union_xor_same_subdivision (ar : Arith) (cfg : Cfg) (fq : FQ) (sb cb : BBox) :
+    exMap sOut (subdivide ar cfg fq sb cb .union) = exMap sOut (subdivide ar cfg fq sb cb .xor) :=
+  subdivide_rel ar cfg fq sb cb .union .xor (Or.inl rfl) (Or.inr rfl)
+
+/-- … from the operands on: the two calls hand `subdivide` the same queue -/
+theorem C05_union_xor_same_subdivision_of_operands (ar : Arith) (cfg : Cfg) (a b : MPoly) (sb cb : BBox) :
+    exMap sOut (subdivide ar cfg (fillQueue a b .union).fq sb cb .union)
+      = exMap sOut (subdivide ar cfg (fillQueue a b .xor).fq sb cb .xor) := by
+  rw [C05_fillQueue_same_for_symmetric_ops a b .union .xor (by decide) (by decide)]
+  exact C05_union_xor_same_subdivision ar cfg _ sb cb
 
 end Gbo.Props
